@@ -101,3 +101,7 @@ func (d *DFS) Next() bool {
 	d.pos = 0
 	return false
 }
+
+// Prefix returns the choices the next run is bound to follow; beyond them it
+// takes the first option each time.
+func (d *DFS) Prefix() []int { return append([]int{}, d.prefix...) }
